@@ -389,8 +389,14 @@ func sibling(ref map[int]int, perturb int) []string {
 		case 2:
 			ops = append(ops, p(1, 1000003, 1), "E0", "E1", d(1, 1000003), "E0")
 		}
+		// same size, different key set, the differing entries carrying the zero value (and a non-zero one):
+		// Equal must be false in both directions
+		ops = append(ops, p(0, k, 0), d(1, k), p(1, 1000003, 0), "S0", "S1", "E0", "E1",
+			p(1, 1000003, 5), "E0", "E1", p(0, k, 7), "E0", "E1", d(1, 1000003), p(1, k, 7), "E0", "E1")
 	} else {
 		ops = append(ops, p(1, 1000003, 1), "E0", "E1")
+		// two one-entry tables with different keys, both mapped to the zero value
+		ops = append(ops, p(0, 0, 0), "C1", p(1, 1000003, 0), "E0", "E1", "C1", p(1, 0, 0), "E0", "E1", d(0, 0), "C1")
 	}
 	return ops
 }
@@ -439,7 +445,7 @@ func growLimit(c cfg) int { return c.cap*c.maxN/c.maxD + 2 }
 // exhaustive: every history over the alphabet {Put k, Delete k, DeleteAll} on 3 keys up to maxLen, after a
 // prefix that brings the table next to a resize threshold; observables after every step.
 func exhaustive(c cfg, prefill int, maxLen int) {
-	uni := []int{1, 2, 3}
+	uni := []int{0, 1, 2} // key 0 and value 0 are first-class
 	var pre []string
 	ref0 := map[int]int{}
 	for i := 0; i < prefill; i++ {
@@ -447,7 +453,7 @@ func exhaustive(c cfg, prefill int, maxLen int) {
 		ref0[100+i] = i
 	}
 	qs := append([]int{}, uni...)
-	qs = append(qs, 4)
+	qs = append(qs, 3)
 	if prefill > 0 {
 		qs = append(qs, 100, 100+prefill-1)
 	}
@@ -473,8 +479,8 @@ func exhaustive(c cfg, prefill int, maxLen int) {
 		for i, s := range hist {
 			switch s.op {
 			case "P":
-				ops = append(ops, p(0, s.key, 10+i))
-				ref[s.key] = 10 + i
+				ops = append(ops, p(0, s.key, 2*i))
+				ref[s.key] = 2 * i
 			case "D":
 				ops = append(ops, d(0, s.key))
 				delete(ref, s.key)
@@ -548,8 +554,12 @@ func random(r *rng.R, c cfg, steps int, uni int) {
 		for _, x := range xs {
 			switch kindOp {
 			case 0:
-				ops = append(ops, p(x, k, val))
-				ref[x][k] = val
+				v := val
+				if val%4 == 0 {
+					v = 0 // the zero value of V is a legitimate value
+				}
+				ops = append(ops, p(x, k, v))
+				ref[x][k] = v
 			case 1:
 				ops = append(ops, d(x, k))
 				delete(ref[x], k)
@@ -704,6 +714,27 @@ func runClient(kind string, ops []string) {
 			// B n: the chain grammar N0 -> t0 N1 | t0, ..., N(n-1) -> t(n-1); FIRST and FOLLOW tables are built
 			// F i: |FIRST(Ni)| (= 1)    W i: |FOLLOW(Ni)| terminals (= 0, only the endmarker follows)
 			switch f[0] {
+			case "C": // C i1,i2,...: the chain grammar over the non-terminals N<i1>, N<i2>, ... (chosen to collide)
+				var idx []int
+				for _, x := range strings.Split(f[1], ",") {
+					v, _ := strconv.Atoi(x)
+					idx = append(idx, v)
+				}
+				var terms []grammar.Terminal
+				var nts []grammar.NonTerminal
+				var prods []*grammar.Production
+				for j, x := range idx {
+					terms = append(terms, tm(x))
+					nts = append(nts, nt(x))
+					prods = append(prods, &grammar.Production{Head: nt(x), Body: grammar.String[grammar.Symbol]{tm(x)}})
+					if j+1 < len(idx) {
+						prods = append(prods, &grammar.Production{Head: nt(x), Body: grammar.String[grammar.Symbol]{tm(x), nt(idx[j+1])}})
+					}
+				}
+				g := grammar.NewCFG(terms, nts, prods, nt(idx[0]))
+				first = g.ComputeFIRST()
+				follow = g.ComputeFOLLOW(first)
+				return "ok"
 			case "B":
 				var terms []grammar.Terminal
 				var nts []grammar.NonTerminal
@@ -805,6 +836,94 @@ func clients(r *rng.R, rounds int) {
 		ops = append(ops, fmt.Sprintf("G %d", i))
 	}
 	runClient("productions", ops)
+}
+
+// collide returns the first `count` indices i >= from such that the key built from i has home slot `cls` in a
+// table of m slots (home = mix(hash) % m, the index computation of the quadratic table).
+func collide(hashOf func(i int) uint64, m, cls, count, from int) []int {
+	var out []int
+	for i := from; len(out) < count && i < from+4000000; i++ {
+		if int(mix(hashOf(i))%uint64(m)) == cls {
+			out = append(out, i)
+		}
+	}
+	return out
+}
+
+// clientsAdversarial: head names chosen through the public hash function so that one whole quadratic probe
+// cycle of the client's table (16 slots of 31; 34 of 67 after one growth) is filled with live entries, or with
+// soft-deleted ones, while an absent head of the same class is looked up / added / removed after every step.
+func clientsAdversarial(r *rng.R) {
+	hn := func(i int) uint64 { return grammar.HashNonTerminal(grammar.NonTerminal("N" + strconv.Itoa(i))) }
+	for _, cls := range []int{r.Intn(31), r.Intn(31)} {
+		l := collide(hn, 31, cls, 24, 0)
+		// live entries
+		var ops []string
+		for j := 0; j < 20; j++ {
+			ops = append(ops, fmt.Sprintf("A %d", l[j]), fmt.Sprintf("G %d", l[22]), fmt.Sprintf("R %d", l[23]), fmt.Sprintf("X %d", l[23]))
+		}
+		ops = append(ops, fmt.Sprintf("A %d", l[22]), fmt.Sprintf("G %d", l[22]), fmt.Sprintf("G %d", l[0]))
+		runClient("productions", ops)
+		// soft-deleted entries
+		ops = nil
+		for j := 0; j < 22; j++ {
+			ops = append(ops, fmt.Sprintf("A %d", l[j]))
+			if j%3 != 2 {
+				ops = append(ops, fmt.Sprintf("R %d", l[j]))
+			}
+			ops = append(ops, fmt.Sprintf("G %d", l[22]), fmt.Sprintf("X %d", l[23]))
+		}
+		ops = append(ops, fmt.Sprintf("A %d", l[22]), fmt.Sprintf("G %d", l[22]))
+		runClient("productions", ops)
+	}
+	// after one growth (67 slots: 34 slots per probe cycle)
+	cls := r.Intn(67)
+	l := collide(hn, 67, cls, 48, 0)
+	var ops []string
+	for j := 0; j < 16; j++ { // arbitrary heads: the table grows to 67
+		ops = append(ops, fmt.Sprintf("A %d", 3000000+j))
+	}
+	for j := 0; j < 44; j++ {
+		ops = append(ops, fmt.Sprintf("A %d", l[j]), fmt.Sprintf("G %d", l[46]), fmt.Sprintf("X %d", l[47]))
+	}
+	runClient("productions", ops)
+}
+
+// clientsFirstFollowAdv: a chain grammar whose non-terminals all have one home slot in the FIRST/FOLLOW tables
+func clientsFirstFollowAdv(r *rng.R) {
+	hs := func(i int) uint64 { return grammar.HashSymbol(grammar.NonTerminal("N" + strconv.Itoa(i))) }
+	for _, m := range []int{31, 67} {
+		cls := r.Intn(m)
+		n := 20
+		if m == 67 {
+			n = 40
+		}
+		l := collide(hs, m, cls, n, 0)
+		ops := []string{"C " + strings.Trim(strings.Join(strings.Fields(fmt.Sprint(l)), ","), "[]")}
+		for j := 0; j < n; j++ {
+			ops = append(ops, fmt.Sprintf("F %d", l[j]), fmt.Sprintf("W %d", l[j]))
+		}
+		runClient("firstfollow", ops)
+	}
+}
+
+// clientsLRTableAdv: states with one home slot in the ACTION/GOTO tables, terminals with one home slot in a row
+func clientsLRTableAdv(r *rng.R) {
+	hst := func(i int) uint64 { return lr.HashState(lr.State(i)) }
+	ht := func(i int) uint64 { return grammar.HashTerminal(grammar.Terminal("t" + strconv.Itoa(i))) }
+	cls := r.Intn(31)
+	sts := collide(hst, 31, cls, 22, 0)
+	tms := collide(ht, 31, r.Intn(31), 22, 0)
+	ops := []string{"N 0"}
+	for j := 0; j < 20; j++ {
+		ops = append(ops, fmt.Sprintf("A %d %d %d", sts[j], tms[0], j), fmt.Sprintf("S %d %d %d", sts[j], tms[0], j),
+			fmt.Sprintf("Q %d %d", sts[21], tms[0]), fmt.Sprintf("G %d %d", sts[21], tms[0]))
+	}
+	for j := 0; j < 20; j++ { // one row filled along one probe cycle
+		ops = append(ops, fmt.Sprintf("A %d %d %d", sts[0], tms[j], j), fmt.Sprintf("S %d %d %d", sts[0], tms[j], j),
+			fmt.Sprintf("Q %d %d", sts[0], tms[21]), fmt.Sprintf("G %d %d", sts[0], tms[21]))
+	}
+	runClient("lrtable", ops)
 }
 
 func clientsFirstFollow(r *rng.R, n int) {
@@ -1049,6 +1168,9 @@ func main() {
 		for i := 0; i < n; i++ {
 			clients(r, r.Range(40, 400))
 		}
+		clientsAdversarial(r)
+		clientsFirstFollowAdv(r)
+		clientsLRTableAdv(r)
 		for i := 0; i < n/2; i++ {
 			clientsFirstFollow(r, r.Range(20, 300))
 			clientsLRTable(r, r.Range(5, 200), r.Range(3, 120), r.Range(200, 3000))
